@@ -1,3 +1,4 @@
+import SimVerif.Gen.Consts
 /-
 Model of feature packing (`FromVec` impls in src/track/utils.rs) and of the distance functions
 (src/distance.rs), generic in the scalar type so that the driver runs it on `Rat` and the
@@ -7,7 +8,8 @@ theorems are stated over any ordered field / `ℝ`.
 -/
 namespace SimVerif.Feature
 
-def lanes : Nat := 8
+/-- `FEATURE_LANES_SIZE`, regenerated from src/track.rs -/
+def lanes : Nat := Gen.FEATURE_LANES_SIZE
 
 variable {α : Type} [Zero α] [Add α] [Sub α] [Mul α]
 
